@@ -326,10 +326,15 @@ def generate():
             "bit_vector.rs": {**c, "RankSupport::BLOCK_SIZE": r["BLOCK_SIZE"], "SelectSupport::SUPERBLOCK_SIZE": s["SUPERBLOCK_SIZE"]}}))
     except rs2lean.Unsupported as e:
         raise ParseError("function translator: %s" % e)
+    skipped = files.pop("_skipped", [])
     try:
         files["SerShape.lean"] = ser_shape.render(ser_shape.extract(read))
     except ser_shape.ShapeError as e:
-        raise ParseError("serialization shapes: %s" % e)
+        # fail closed for the properties that depend on the shapes (C06, C14) only
+        skipped.append("serialization shapes: %s" % e)
+        files["SerShape.lean"] = ("-- GENERATED by tools/gen_lean.py — the serializer shapes could NOT be extracted: %s\n"
+                                  "import Sds.Model.SerShape\nnamespace Sds.Generated\nopen Sds\n"
+                                  "def allSerShapes : List SerShape := []\nend Sds.Generated\n" % str(e).replace("\n", " "))
     ser = read("serialize.rs")
     # MemoryMap: how failure of mmap is detected, and the length passed to munmap
     mm = re.search(r"let ptr = unsafe \{ libc::mmap\([^;]*\) \};\s*if\s+([^{]+)\{\s*return Err", ser)
@@ -426,12 +431,14 @@ def generate():
         "def tempNameFormatChars : List Char := " + fmt_chars + "\n"
         "def tempNameArgs : List NameArg := [" + ", ".join(arg_kinds) + "]\n\n"
         "end Sds.Generated\n")
+    files["_skipped"] = skipped
     return files
 
 
 def main():
     try:
         files = generate()
+        skipped = files.pop("_skipped", [])
     except ParseError as e:
         sys.stderr.write("gen_lean: BROKEN TIE: %s\n" % e)
         return 2
@@ -448,6 +455,8 @@ def main():
                 f.write(content)
             changed.append(name)
     print("gen_lean: ok (%s)" % (", ".join(changed) if changed else "unchanged"))
+    for sk in skipped:
+        print("gen_lean: UNTRANSLATABLE %s" % sk)
     return 0
 
 
